@@ -8,6 +8,8 @@ C07 - Simulated trajectories agree with an independent reference solution.
     power-flow voltages, integrated piecewise with solve_ivp(DOP853, rtol 1e-11).  Assertions: the error
     sequence over h in {1/30, 1/60, 1/120, 1/240} has the order of the method, the finest error is below
     1 % of the swing amplitude, the default-step error is within the discretisation bound.
+(c) multi-machine classical model (vf/checks/c07_mm.py): generated meshed networks with a GENCLS machine on every generator, bus faults
+    and branch trips; reference: own Kron reduction per switching interval + DOP853; event floor measured by a second reference run.
 (b) small-signal: for stock dynamic cases a state kick eps*d is applied at a zero-amount Alter event
     and the response is compared with x_eq + expm(A (t - t_k)) eps d, A reduced densely from the run's own
     Jacobians (validated independently under C03).
@@ -23,12 +25,15 @@ LEVEL = "exploration"
 TIMEOUT = 900
 RULE = ("(a) random SMIB systems (M in [2,20], D in [0,5], x'd, xT, xL1, xL2, P in [0.2,1.1], optional line resistance and a shunt load, one "
         "line opened and optionally reclosed at random times), both integration methods; (b) stock cases kundur_full, wecc_gencls, "
-        "pjm5bus, ieee14_full, kundur_sexs, ieee39 with random / unit kick directions, both methods. Non-trivial: the swing amplitude "
+        "pjm5bus, ieee14_full, kundur_sexs, ieee39 with random / unit kick directions, both methods; (c) generated 4-10 bus networks (taps, phase "
+        "shifters, device bases, shunts, several loads per bus), 2-4 classical machines on their own MVA base, bus fault (rf, xf) and / or branch "
+        "trip with optional reclosure, compared with the classical multi-machine reference (rotor angles of all machines, bus voltages). Non-trivial: the swing amplitude "
         "exceeds 1e-3 rad (a) or the response amplitude exceeds 10 eps (b); distinct = generator seed | (case, direction, method).")
 ASSUMPTIONS = ["GENCLS is the classical model E' behind x'd with constant mechanical power; PQ loads are constant impedance in TDS (default p2z)",
                "orders are estimated from successive halvings on the finer step pairs: trapezoid in [1.6, 2.4], backward Euler in [0.75, 1.3] (the 1 % accuracy clause is applied to the trapezoidal rule; backward Euler is first order and numerically damped)",
+               "multi-machine benchmark: loads are constant admittances fixed at the power-flow voltage, machines are E' behind ra + j x'd on their own base, the electrical torque equals the air-gap power; the h-independent error left by ANDES' 1e-4 s event resolution is measured with a second reference integration that applies the same impulse",
                "small-signal kicks are applied on the step that leaves a scheduled (zero-amount) event, where ANDES itself inserts 1e-4 s steps"]
-REQUIRED_OBS = {"smib_runs": 8, "order_estimates": 8, "smallsignal_runs": 4}
+REQUIRED_OBS = {"smib_runs": 8, "order_estimates": 8, "smallsignal_runs": 4, "mm_runs": 8}
 
 SS_CASES = ["kundur/kundur_full.xlsx", "wecc/wecc_gencls.xlsx", "5bus/pjm5bus.xlsx", "kundur/kundur_sexs.xlsx", "ieee14/ieee14_full.xlsx",
             "ieee39/ieee39_full.xlsx"]
@@ -46,6 +51,9 @@ def cases(tier, seed):
             for rep in range(1 if tier == "quick" else 6):
                 out.append(dict(id="ss:%s:%s:%d" % (c, method, rep), kind="ss", case=c, method=method, index=k))
                 k += 1
+    # (c) multi-machine classical-model benchmark on generated networks (vf/checks/c07_mm.py)
+    for i in range(6 if tier == "quick" else 90):
+        out.append(dict(id="mm%03d" % i, kind="mm", index=i, method=["trapezoid", "backeuler"][1 if i % 6 == 5 else 0]))
     return out
 
 
@@ -389,6 +397,10 @@ def run_ss(spec, res):
 
 def run_case(spec):
     res = Result(spec)
+    if spec["kind"] == "mm":
+        from vf.checks import c07_mm
+        c07_mm.run_mm(spec, res)
+        return res
     {"smib": run_smib, "ss": run_ss}[spec["kind"]](spec, res)
     return res
 
